@@ -106,6 +106,16 @@ def run(tier, seed):
             ev = PC.modules_event(b, texts, "feature-" + mode)
             ev["mode"] = mode
             events.append(ev)
+    # (d) project type names that stand in every textual relation - short of equality - to the names the generator
+    # derives (<Cmd>Params, <Name>Schema, listener names): super-string on either side, proper prefix / suffix,
+    # the bare suffix words; commands with values, with channels only and with both
+    for mode in ("none", "zod"):
+        b, res, texts = PC.run_project(d, "coincide-" + mode, {"src/lib.rs": name_coincidence_project()}, mode=mode)
+        if not b:
+            raise C.ToolError("name-coincidence project produced no bindings (%s): %s" % (mode, res.err[-400:]))
+        ev = PC.modules_event(b, texts, "name-coincidences-" + mode)
+        ev["mode"] = mode
+        events.append(ev)
     evs = [{k: v for k, v in e.items() if k not in ("pack",)} for e in events]
     mism = PC.validate_project_trace(d, evs, "c02", chunk=30)
     for idx, why in mism:
@@ -148,6 +158,28 @@ def run(tier, seed):
         violations=len(verdicts.violations))
     shutil.rmtree(d, ignore_errors=True)
     return rc
+
+
+def name_coincidence_project():
+    src = [PC.PRELUDE, "use tauri::Emitter;\n"]
+    tys = []
+    cmds = (("upload", "path: String, opts: %s"), ("stream", "on_data: Channel<%s>"), ("mixed_up", "id: u32, extra: %s, on_tick: Channel<u8>"))
+    for cmd, _ in cmds:
+        pas = "".join(w.capitalize() for w in cmd.split("_"))
+        tys += ["Bulk%sParams" % pas, "%sParamsV2" % pas, "%sParam" % pas, "%sParamsSchemaX" % pas, "My%sParamsSchema" % pas, pas, "%sSchemas" % pas,
+                "%sPara" % pas, "X%s" % pas]
+    tys += ["Params", "Schema", "ParamsSchema", "Listener", "OnJobDone", "OnJobDoneListener", "JobDone", "Types", "Invoke"]
+    tys = sorted(set(tys))
+    for t in tys:
+        src.append("#[derive(Serialize, Deserialize, Clone)]\npub struct %s {\n    pub v: u8,\n}\n" % t)
+    # every type used by some command, and each command's own parameter of a coinciding type
+    per = {c: [t for t in tys if "".join(w.capitalize() for w in c.split("_")) in t] for c, _ in cmds}
+    for cmd, sig in cmds:
+        for j, t in enumerate(per[cmd] or ["Params"]):
+            src.append("#[tauri::command]\npub fn %s%s(%s) -> Option<%s> { None }\n" % (cmd, "" if j == 0 else "_%d" % j, sig % t, t))
+    src.append("#[tauri::command]\npub fn uses_rest(%s) {}\n" % ", ".join("a%d: %s" % (i, t) for i, t in enumerate(tys)))
+    src.append("pub fn emits(app: tauri::AppHandle, j: JobDone, o: OnJobDone) {\n    app.emit(\"job-done\", j).ok();\n    app.emit(\"on-job-done\", o).ok();\n}\n")
+    return "\n".join(src)
 
 
 def replay(path, seed):
